@@ -26,19 +26,21 @@ for both kinds; in round 9 the agents were also told what kind of campaign the c
 asked for changes a real maintainer could plausibly make and a reviewer accept (no contrived machinery), which is the round
 that says most about ordinary use: 23 of 24 were caught by the committed state; round 11 (three changes, one each for C04, C15
 and C16, written after the last change to the checks) was run against the final state with nothing strengthened afterwards:
-all three were caught. Every change was confirmed here with
+all three were caught; round 12 (six changes for C06, C07, C08, C10, C12 and C14, agents briefed as in round 9) is described
+in section 13.5c. Every change was confirmed here with
 `tools/confirmseed` (patch applies to HEAD; builds; existing tests pass with it; demonstration passes
 without and fails with it) before it was kept under `seeded/<id>/` (`patch.diff`, `demo_test.go.txt`,
 the agent's `README.md`, `meta.json`). The checks were run against each change in a scratch copy of
-`/repo` (`tools/tryseed`, `VERIF_REPO`); `/repo` itself was never modified. Rounds 2 to 11 were first
+`/repo` (`tools/tryseed`, `VERIF_REPO`); `/repo` itself was never modified. Rounds 2 to 12 were first
 run against the committed state *before* any strengthening (a `vp run` snapshot), so "caught at first"
 is an honest measure of what the machinery detected unprompted: %s.
 Every miss was analysed, the generators or the attribution of notes were strengthened (never a verdict
 loosened), the unchanged tree was re-checked for false alarms, and all of them are detected now
-(`bin/selftest --seeds` re-runs the whole matrix) - except three changes of round 9 that stay undetected and are kept on
-record as limits (section 13.5b: a 32-bit hash collision, a 256 MiB frame, an allocation below the slack of the bound). Six
+(`bin/selftest --seeds` re-runs the whole matrix) - except three changes of round 9 and one of round 12 that stay undetected and are kept on
+record as limits (section 13.5b: a 32-bit hash collision, a 256 MiB frame, an allocation below the slack of the bound; section
+13.5c: an accessor's slice fed back into a setter of the same packet). Six
 changes need the thorough tier because they only manifest on frames above 1 MiB or at one exact size (C07-r4a, C03-r5a,
-C07-r6, C03-r9d, C08-r9b, C10-r9b). The falling rate of "caught at first"
+C07-r6, C03-r9d, C08-r9b, C10-r9b; of round 12 also C07-r12 and C08-r12). The falling rate of "caught at first"
 from round to round is the point of the exercise: each round was asked to evade what the earlier rounds
 had taught the machinery, and every miss became a new generator dimension or a sharper rule.
 
